@@ -1,4 +1,4 @@
-(* C20 proofs, part 1: integer arithmetic of the SQL evaluator (Model/Arith.v). *)
+(* C20 proofs, part 1: integer arithmetic of the SQL evaluator (Model/Arith.v), repaired tree. *)
 From Coq Require Import ZArith List Bool Lia ZifyBool.
 From TV Require Import Lib.MachInt Model.Arith.
 Import ListNotations.
@@ -170,49 +170,115 @@ Proof.
   intros H; inversion H; subst. split; [reflexivity|exact F].
 Qed.
 
+(* soundness of the checked_pow loop: it returns None or the exact power, which then is an i64 *)
+Lemma pow_loop_sound : forall fuel base acc e, 1 <= e < 2 ^ Z.of_nat fuel ->
+  pow_loop fuel base acc e = ONone \/
+  (pow_loop fuel base acc e = OVal (VInt (acc * base ^ e)) /\ in_i64 (acc * base ^ e) = true).
+Proof.
+  induction fuel as [|f IH]; intros base acc e He.
+  - change (2 ^ Z.of_nat 0) with 1 in He. lia.
+  - assert (Hpow2 : 2 ^ Z.of_nat (S f) = 2 * 2 ^ Z.of_nat f).
+    { rewrite Nat2Z.inj_succ, Z.pow_succ_r by lia. reflexivity. }
+    pose proof (pow_split base e ltac:(lia)) as Hsplit.
+    cbn [pow_loop]. destruct (Z.odd e) eqn:Hodd.
+    + assert (Hdm : e = 2 * (e / 2) + 1).
+      { pose proof (Z.div_mod e 2 ltac:(lia)) as D. rewrite Zmod_odd, Hodd in D. exact D. }
+      destruct (in_i64 (acc * base)) eqn:A; [|left; reflexivity].
+      destruct (Z.eqb_spec e 1) as [E1|E1].
+      * right. subst e. rewrite Z.pow_1_r. split; [reflexivity|exact A].
+      * destruct (in_i64 (base * base)); [|left; reflexivity].
+        replace (acc * base ^ e) with ((acc * base) * (base * base) ^ (e / 2)) by (rewrite Hsplit; ring).
+        apply IH. lia.
+    + assert (Hdm : e = 2 * (e / 2)).
+      { pose proof (Z.div_mod e 2 ltac:(lia)) as D. rewrite Zmod_odd, Hodd in D. lia. }
+      destruct (in_i64 (base * base)); [|left; reflexivity].
+      replace (acc * base ^ e) with (acc * (base * base) ^ (e / 2)) by (rewrite Hsplit; ring).
+      apply IH. lia.
+Qed.
+
+Lemma pow_i64_none a e : 0 <= e < 2 ^ 32 -> in_i64 (a ^ e) = false -> pow_i64 a e = ONone.
+Proof.
+  intros He Hno. unfold pow_i64. destruct (Z.eqb_spec e 0) as [E|E].
+  - subst e. rewrite Z.pow_0_r in Hno. discriminate.
+  - destruct (pow_loop_sound 33 a 1 e) as [N|[_ F]].
+    + change (Z.of_nat 33) with 33. change (2 ^ 33) with 8589934592. change (2 ^ 32) with 4294967296 in He. lia.
+    + exact N.
+    + rewrite Z.mul_1_l in F. congruence.
+Qed.
+
+(* |a| >= 2, b >= 64: a ^ b is not an i64 *)
+Lemma big_pow_out a b : a <> 0 -> a <> 1 -> a <> -1 -> 64 <= b -> in_i64 (a ^ b) = false.
+Proof.
+  intros H0 H1 Hm Hb. apply in_i64_false. unfold i64_min, i64_max.
+  assert (Habs : 2 <= Z.abs a) by lia.
+  assert (Hp : 2 ^ 64 <= Z.abs a ^ b).
+  { transitivity (2 ^ b); [apply Z.pow_le_mono_r; lia|apply Z.pow_le_mono_l; lia]. }
+  rewrite <- Z.abs_pow in Hp. change (2 ^ 64) with 18446744073709551616 in Hp. lia.
+Qed.
+
+Lemma exact_pow_over a b : 0 < b -> exact_pow a b = XOver -> a <> 0 /\ a <> 1 /\ a <> -1 /\ in_i64 (a ^ b) = false.
+Proof.
+  intros Hb. unfold exact_pow.
+  destruct (Z.eqb_spec b 0); [lia|].
+  destruct (Z.eqb_spec a 0); [discriminate|].
+  destruct (Z.eqb_spec a 1); [discriminate|].
+  destruct (Z.eqb_spec a (-1)); [discriminate|].
+  destruct (Z.leb_spec 64 b).
+  - intros _. repeat split; try assumption. apply big_pow_out; assumption.
+  - unfold xchk. destruct (in_i64 (a ^ b)) eqn:F; [discriminate|]. intros _. repeat split; assumption.
+Qed.
+
+Lemma exact_pow_shape a b : match exact_pow a b with XInt _ | XOver => True | _ => False end.
+Proof.
+  unfold exact_pow, xchk.
+  repeat match goal with |- context [if ?c then _ else _] => destruct c end; exact I.
+Qed.
+
 (* ------------------------------------------------------------------ the evaluator against the exact semantics *)
-(* what [eval] returns, given what the exact semantics says, on expressions outside the recorded classes *)
+(* what [eval] returns, given what the exact semantics says - for EVERY well-formed expression *)
 Definition agrees (e : expr) : Prop :=
   match exact e with
   | XInt z => eval e = OVal (VInt z)
   | XNullP => eval e = OVal VNull \/ eval e = ONone
-  | XDivZ => eval e = ONone
-  | XAny => eval e = ONone
-  | XOver => False
+  | XDivZ | XAny | XOver => eval e = ONone
   end.
 
-Lemma rem_not_overflow a b : b <> 0 -> ((a =? i64_min) && (b =? -1)) = false ->
-  eval_bin Rem (VInt a) (VInt b) = OVal (VInt (Z.rem a b)).
-Proof.
-  intros Hb H. cbn [eval_bin]. destruct (Z.eqb_spec b 0); [contradiction|]. rewrite H. reflexivity.
-Qed.
-
 Lemma bin_step o a b :
-  (match o with Pow => 0 <= b < 2 ^ 32 | _ => True end) ->
-  step_overflows o a b = false ->
+  (match o with Pow => 0 <= b | _ => True end) ->
   match exact_bin o a b with
   | XInt z => eval_bin o (VInt a) (VInt b) = OVal (VInt z)
   | XNullP => False
-  | XDivZ => eval_bin o (VInt a) (VInt b) = ONone
-  | XAny => eval_bin o (VInt a) (VInt b) = ONone
-  | XOver => False
+  | XDivZ | XAny | XOver => eval_bin o (VInt a) (VInt b) = ONone
   end.
 Proof.
-  intros Hpow Hst. destruct o; cbn [exact_bin eval_bin step_overflows] in *.
-  - unfold xchk, chk in *. destruct (in_i64 (a + b)); [reflexivity|discriminate].
-  - unfold xchk, chk in *. destruct (in_i64 (a - b)); [reflexivity|discriminate].
-  - unfold xchk, chk in *. destruct (in_i64 (a * b)); [reflexivity|discriminate].
+  intros Hpow. destruct o; cbn [exact_bin eval_bin] in *.
+  - unfold xchk, chk. destruct (in_i64 (a + b)); reflexivity.
+  - unfold xchk, chk. destruct (in_i64 (a - b)); reflexivity.
+  - unfold xchk, chk. destruct (in_i64 (a * b)); reflexivity.
   - destruct (Z.eqb_spec b 0); [reflexivity|].
-    unfold xchk, chk in *. destruct (in_i64 (Z.quot a b)); [reflexivity|discriminate].
-  - destruct (Z.eqb_spec b 0); [reflexivity|]. rewrite Hst. reflexivity.
+    unfold xchk, chk. destruct (in_i64 (Z.quot a b)); reflexivity.
+  - destruct (Z.eqb_spec b 0); reflexivity.
   - destruct (Z.leb_spec 0 b) as [B|B]; [|lia].
-    rewrite Z.mod_small by lia.
-    destruct (exact_pow a b) eqn:EP; try discriminate.
-    + apply exact_pow_int in EP; [|lia]. destruct EP as [-> F]. apply pow_i64_ok; [lia|exact F].
-    + (* exact_pow never says XNullP / XDivZ / XAny *)
-      exfalso. unfold exact_pow, xchk in EP. repeat match type of EP with (if ?c then _ else _) = _ => destruct c end; discriminate.
-    + exfalso. unfold exact_pow, xchk in EP. repeat match type of EP with (if ?c then _ else _) = _ => destruct c end; discriminate.
-    + exfalso. unfold exact_pow, xchk in EP. repeat match type of EP with (if ?c then _ else _) = _ => destruct c end; discriminate.
+    pose proof (exact_pow_shape a b) as Sh.
+    destruct (exact_pow a b) as [z| | | |] eqn:EP; try contradiction.
+    + (* representable *)
+      pose proof EP as EP'. apply exact_pow_int in EP'; [|lia]. destruct EP' as [-> F].
+      destruct (Z.leb_spec b 4294967295) as [U|U].
+      * apply pow_i64_ok; [change (2 ^ 32) with 4294967296; lia|exact F].
+      * unfold exact_pow in EP.
+        destruct (Z.eqb_spec b 0); [lia|].
+        destruct (Z.eqb_spec a 0) as [->|A0]; [cbn [orb]; rewrite Z.pow_0_l by lia; reflexivity|].
+        destruct (Z.eqb_spec a 1) as [->|A1]; [cbn [orb]; rewrite Z.pow_1_l by lia; reflexivity|].
+        cbn [orb].
+        destruct (Z.eqb_spec a (-1)) as [->|Am]; [inversion EP as [E]; rewrite E; reflexivity|].
+        destruct (Z.leb_spec 64 b); [discriminate|lia].
+    + (* not representable *)
+      destruct (Z.eqb_spec b 0) as [->|B0]; [cbn in EP; discriminate|].
+      destruct (exact_pow_over a b ltac:(lia) EP) as [A0 [A1 [Am F]]].
+      destruct (Z.leb_spec b 4294967295) as [U|U].
+      * apply pow_i64_none; [change (2 ^ 32) with 4294967296; lia|exact F].
+      * destruct (Z.eqb_spec a 0); [contradiction|]. destruct (Z.eqb_spec a 1); [contradiction|].
+        destruct (Z.eqb_spec a (-1)); [contradiction|]. reflexivity.
   - destruct ((0 <=? b) && (b <? 64)); reflexivity.
   - destruct ((0 <=? b) && (b <? 64)) eqn:C; [|reflexivity].
     rewrite Z.shiftr_div_pow2 by lia. reflexivity.
@@ -221,52 +287,62 @@ Proof.
 Qed.
 
 Lemma un_step o a :
-  (match exact_un o a with XOver => true | _ => false end) = false ->
   match exact_un o a with
   | XInt z => eval_un o (VInt a) = OVal (VInt z)
+  | XOver => eval_un o (VInt a) = ONone
   | _ => False
   end.
 Proof.
   destruct o; cbn [exact_un eval_un]; try reflexivity.
-  unfold xchk, chk. destruct (in_i64 (- a)); [reflexivity|discriminate].
+  unfold xchk, chk. destruct (in_i64 (- a)); reflexivity.
 Qed.
 
-Lemma agrees_all : forall e, wf e = true -> big_exponent e = false -> overflow_step e = false -> agrees e.
+Lemma wf_lit n : wf (ELit n) = true -> agrees (ELit n).
 Proof.
-  induction e as [n| |o a IHa|o l IHl r IHr]; intros Hwf Hbig Hov; unfold agrees.
-  - cbn [exact eval wf] in *. unfold xchk, in_i64. unfold i64_min.
-    destruct ((0 <=? n) && (n <=? i64_max)) eqn:C; [|discriminate].
-    replace ((-9223372036854775808 <=? n) && (n <=? i64_max)) with true by lia. reflexivity.
-  - cbn [exact eval]. left; reflexivity.
-  - cbn [wf big_exponent overflow_step] in *. apply orb_false_iff in Hov. destruct Hov as [Hov1 Hov2].
-    specialize (IHa Hwf Hbig Hov1). unfold agrees in IHa.
-    cbn [exact eval]. destruct (exact a) as [x| | | |].
-    + rewrite IHa. pose proof (un_step o x Hov2) as U. destruct (exact_un o x); try contradiction. exact U.
-    + destruct IHa as [-> | ->]; [right; destruct o; reflexivity|right; reflexivity].
-    + rewrite IHa. reflexivity.
-    + contradiction.
-    + rewrite IHa. reflexivity.
-  - cbn [big_exponent overflow_step] in *.
-    apply orb_false_iff in Hbig. destruct Hbig as [Hbig Hbig3]. apply orb_false_iff in Hbig. destruct Hbig as [Hbig1 Hbig2].
-    apply orb_false_iff in Hov. destruct Hov as [Hov Hov3]. apply orb_false_iff in Hov. destruct Hov as [Hov1 Hov2].
+  intros Hwf. unfold agrees. cbn [exact eval wf] in *. unfold xchk, in_i64, i64_min.
+  rewrite Hwf. replace ((-9223372036854775808 <=? n) && (n <=? i64_max)) with true by lia. reflexivity.
+Qed.
+
+Lemma agrees_all : forall e, wf e = true -> agrees e.
+Proof.
+  induction e as [n| |o a IHa|o l IHl r IHr]; intros Hwf.
+  - apply wf_lit; exact Hwf.
+  - unfold agrees. cbn [exact eval]. left; reflexivity.
+  - (* unary *)
+    assert (Generic : wf a = true -> (forall n, ~ (o = Neg /\ a = ELit n)) -> agrees (EUn o a)).
+    { intros Hwa Hno. specialize (IHa Hwa). unfold agrees in *.
+      assert (Ee : exact (EUn o a) = match exact a with XInt x => exact_un o x | r => r end).
+      { destruct o; try reflexivity. destruct a; try reflexivity. exfalso. eapply Hno; eauto. }
+      assert (Ev : eval (EUn o a) = match eval a with OVal v => eval_un o v | r => r end).
+      { destruct o; try reflexivity. destruct a; try reflexivity. exfalso. eapply Hno; eauto. }
+      rewrite Ee, Ev. destruct (exact a) as [x| | | |].
+      - rewrite IHa. pose proof (un_step o x) as U. destruct (exact_un o x); try contradiction; exact U.
+      - destruct IHa as [-> | ->]; right; [destruct o; reflexivity|reflexivity].
+      - rewrite IHa; reflexivity.
+      - rewrite IHa; reflexivity.
+      - rewrite IHa; reflexivity. }
+    destruct o; try (apply Generic; [destruct a; exact Hwf|intros n [Hc _]; discriminate]).
+    destruct a as [n| | |]; try (apply Generic; [exact Hwf|intros n [_ Hc]; discriminate]).
+    (* a signed numeral *)
+    unfold agrees. cbn [exact eval wf] in *. unfold xchk, in_i64, i64_min, i64_max. rewrite Hwf.
+    replace ((-9223372036854775808 <=? - n) && (- n <=? 9223372036854775807)) with true by lia. reflexivity.
+  - (* binary *)
     assert (Hwfl : wf l = true) by (destruct o; cbn [wf] in Hwf; apply andb_true_iff in Hwf; tauto).
     assert (Hwfr : wf r = true).
     { destruct o; cbn [wf] in Hwf; apply andb_true_iff in Hwf; try tauto.
       destruct Hwf as [_ Hr]. destruct r; try discriminate. cbn [wf]. exact Hr. }
-    specialize (IHl Hwfl Hbig1 Hov1). specialize (IHr Hwfr Hbig2 Hov2). unfold agrees in IHl, IHr.
+    specialize (IHl Hwfl). specialize (IHr Hwfr). unfold agrees in *.
     cbn [exact eval].
-    destruct (exact l) as [a| | | |] eqn:El; try contradiction;
-    destruct (exact r) as [b| | | |] eqn:Er; try contradiction.
-    + (* both integers *)
-      rewrite IHl, IHr.
-      assert (Hp : match o with Pow => 0 <= b < 2 ^ 32 | _ => True end).
+    destruct (exact l) as [a| | | |] eqn:El; destruct (exact r) as [b| | | |] eqn:Er.
+    + rewrite IHl, IHr.
+      assert (Hp : match o with Pow => 0 <= b | _ => True end).
       { destruct o; try exact I. cbn [wf] in Hwf. apply andb_true_iff in Hwf. destruct Hwf as [_ Hr].
         destruct r as [n| | |]; try discriminate.
-        cbn [exact] in Er. unfold xchk in Er. destruct (in_i64 n); [|discriminate]. inversion Er; subst.
-        change (2 ^ 32) with 4294967296 in *. lia. }
-      pose proof (bin_step o a b Hp Hov3) as B.
+        cbn [exact] in Er. unfold xchk in Er. destruct (in_i64 n); [|discriminate]. inversion Er; subst. lia. }
+      pose proof (bin_step o a b Hp) as B.
       destruct (exact_bin o a b); try contradiction; exact B.
-    + rewrite IHl. destruct IHr as [-> | ->]; [right; destruct o; reflexivity|right; reflexivity].
+    + rewrite IHl. destruct IHr as [-> | ->]; right; [destruct o; reflexivity|reflexivity].
+    + rewrite IHl, IHr. reflexivity.
     + rewrite IHl, IHr. reflexivity.
     + rewrite IHl, IHr. reflexivity.
     + destruct IHl as [-> | ->]; [|right; reflexivity]. rewrite IHr. right. destruct o; reflexivity.
@@ -274,6 +350,14 @@ Proof.
       destruct IHr as [-> | ->]; right; [destruct o; reflexivity|reflexivity].
     + destruct IHl as [-> | ->]; [|reflexivity]. rewrite IHr. reflexivity.
     + destruct IHl as [-> | ->]; [|reflexivity]. rewrite IHr. reflexivity.
+    + destruct IHl as [-> | ->]; [|reflexivity]. rewrite IHr. reflexivity.
+    + rewrite IHl. reflexivity.
+    + rewrite IHl. reflexivity.
+    + rewrite IHl. reflexivity.
+    + rewrite IHl. reflexivity.
+    + rewrite IHl. reflexivity.
+    + rewrite IHl. reflexivity.
+    + rewrite IHl. reflexivity.
     + rewrite IHl. reflexivity.
     + rewrite IHl. reflexivity.
     + rewrite IHl. reflexivity.
@@ -284,77 +368,69 @@ Proof.
     + rewrite IHl. reflexivity.
 Qed.
 
-Lemma class0 e : arith_class e = 0 -> big_exponent e = false /\ overflow_step e = false.
-Proof. unfold arith_class. destruct (big_exponent e); [discriminate|]. destruct (overflow_step e); [discriminate|]. tauto. Qed.
+(* every expression whose exact evaluation stays inside i64: SELECT shows exactly the result *)
+Theorem arith_in_range_correct_l : forall e z, wf e = true -> exact e = XInt z -> eval e = OVal (VInt z).
+Proof. intros e z Hwf Hx. pose proof (agrees_all e Hwf) as A. unfold agrees in A. rewrite Hx in A. exact A. Qed.
 
-(* the property for every expression outside the recorded classes *)
-Theorem arith_in_range_correct_l : forall e z, wf e = true -> arith_class e = 0 ->
-  exact e = XInt z -> eval e = OVal (VInt z).
-Proof.
-  intros e z Hwf Hc Hx. destruct (class0 e Hc) as [Hb Ho].
-  pose proof (agrees_all e Hwf Hb Ho) as A. unfold agrees in A. rewrite Hx in A. exact A.
-Qed.
-
-Theorem arith_null_l : forall e, wf e = true -> arith_class e = 0 ->
+Theorem arith_null_l : forall e, wf e = true ->
   (exact e = XNullP \/ exact e = XDivZ \/ exact e = XAny) -> to_sql (eval e) = OVal VNull.
 Proof.
-  intros e Hwf Hc Hx. destruct (class0 e Hc) as [Hb Ho].
-  pose proof (agrees_all e Hwf Hb Ho) as A. unfold agrees in A.
+  intros e Hwf Hx. pose proof (agrees_all e Hwf) as A. unfold agrees in A.
   destruct Hx as [Hx|[Hx|Hx]]; rewrite Hx in A.
   - destruct A as [-> | ->]; reflexivity.
   - rewrite A; reflexivity.
   - rewrite A; reflexivity.
 Qed.
 
-Theorem arith_class0_ok_l : forall e, wf e = true -> arith_class e = 0 ->
-  exact e <> XOver /\ obs_ok (exact e) (to_sql (eval e)) = true.
+(* no expression panics any more (nor runs the model out of fuel) *)
+Theorem arith_never_panics_l : forall e, wf e = true ->
+  eval e <> OPanic /\ eval e <> OFuel /\ eval e <> OUnmod /\ eval e <> OErr.
 Proof.
-  intros e Hwf Hc. destruct (class0 e Hc) as [Hb Ho].
-  pose proof (agrees_all e Hwf Hb Ho) as A. unfold agrees in A.
-  destruct (exact e) as [z| | | |].
-  - split; [discriminate|]. rewrite A. cbn. apply Z.eqb_refl.
-  - split; [discriminate|]. destruct A as [-> | ->]; reflexivity.
-  - split; [discriminate|]. rewrite A. reflexivity.
-  - contradiction.
-  - split; [discriminate|]. rewrite A. reflexivity.
+  intros e Hwf. pose proof (agrees_all e Hwf) as A. unfold agrees in A.
+  destruct (exact e); try (rewrite A; repeat split; discriminate).
+  destruct A as [-> | ->]; repeat split; discriminate.
 Qed.
 
-(* division and modulo by zero: NULL, whatever the dividend *)
+(* outside the one recorded class what SELECT shows satisfies the property *)
+Theorem arith_class0_ok_l : forall e, wf e = true -> arith_class e = 0 ->
+  obs_ok (exact e) (to_sql (eval e)) = true.
+Proof.
+  intros e Hwf Hc. pose proof (agrees_all e Hwf) as A. unfold agrees, arith_class in *.
+  destruct (exact e) as [z| | | |]; try discriminate.
+  - rewrite A. cbn. apply Z.eqb_refl.
+  - destruct A as [-> | ->]; reflexivity.
+  - rewrite A. reflexivity.
+  - rewrite A. reflexivity.
+Qed.
+
+(* F-C20-1 as it stands on the repaired code: where some step is not representable the property
+   demands an error; the evaluator shows NULL (it has no error channel) *)
+Theorem arith_overflow_shows_null_l : forall e, wf e = true -> arith_class e = 1 ->
+  exact e = XOver /\ to_sql (eval e) = OVal VNull /\ obs_ok (exact e) (to_sql (eval e)) = false.
+Proof.
+  intros e Hwf Hc. pose proof (agrees_all e Hwf) as A. unfold agrees, arith_class in *.
+  destruct (exact e); try discriminate. rewrite A. repeat split; reflexivity.
+Qed.
+
 Theorem div_zero_null_l : forall a, in_i64 a = true ->
   eval_bin Div (VInt a) (VInt 0) = ONone /\ eval_bin Rem (VInt a) (VInt 0) = ONone.
 Proof. intros a _. split; reflexivity. Qed.
 
-(* the unchecked operators panic: witnesses *)
-Definition lit_min : expr := EBin Sub (EUn Neg (ELit i64_max)) (ELit 1).
-Theorem arith_no_panic_refuted_l :
-  eval (EBin Add (ELit i64_max) (ELit 1)) = OPanic /\ exact (EBin Add (ELit i64_max) (ELit 1)) = XOver /\
-  eval (EBin Div lit_min (EUn Neg (ELit 1))) = OPanic /\ exact (EBin Div lit_min (EUn Neg (ELit 1))) = XOver /\
-  eval (EUn Neg lit_min) = OPanic /\ exact (EUn Neg lit_min) = XOver /\
-  eval (EBin Pow (ELit 2) (ELit 64)) = OPanic /\ exact (EBin Pow (ELit 2) (ELit 64)) = XOver /\
-  eval (EBin Rem lit_min (EUn Neg (ELit 1))) = OPanic /\ exact (EBin Rem lit_min (EUn Neg (ELit 1))) = XInt 0 /\
-  eval (EBin Mul (ELit 4294967296) (ELit 4294967296)) = OPanic.
-Proof. vm_compute. repeat split. Qed.
-
-(* a ^ b with b >= 2^32: the exponent is cut to 32 bits, 0 ^ 4294967296 evaluates to 1 *)
-Theorem pow_exponent_truncated_l :
-  eval (EBin Pow (ELit 0) (ELit 4294967296)) = OVal (VInt 1) /\ exact (EBin Pow (ELit 0) (ELit 4294967296)) = XInt 0 /\
-  arith_class (EBin Pow (ELit 0) (ELit 4294967296)) = 2.
+Definition lit_min : expr := EUn Neg (ELit 9223372036854775808).
+(* the witnesses of the repaired findings F-C20-1 (panics) and F-C20-2 (exponent cut to 32 bits), on the new model *)
+Theorem arith_witnesses_l :
+  wf (EBin Add (ELit i64_max) (ELit 1)) = true /\ arith_class (EBin Add (ELit i64_max) (ELit 1)) = 1 /\
+  eval (EBin Add (ELit i64_max) (ELit 1)) = ONone /\
+  eval lit_min = OVal (VInt i64_min) /\
+  eval (EBin Div lit_min (EUn Neg (ELit 1))) = ONone /\ exact (EBin Div lit_min (EUn Neg (ELit 1))) = XOver /\
+  eval (EUn Neg lit_min) = ONone /\ eval (EBin Pow (ELit 2) (ELit 64)) = ONone /\
+  eval (EBin Rem lit_min (EUn Neg (ELit 1))) = OVal (VInt 0) /\
+  eval (EBin Pow (ELit 0) (ELit 4294967296)) = OVal (VInt 0) /\ exact (EBin Pow (ELit 0) (ELit 4294967296)) = XInt 0 /\
+  eval (EBin Pow (EUn Neg (ELit 1)) (ELit 4294967297)) = OVal (VInt (-1)) /\
+  eval (EBin Pow (ELit 2) (ELit 4294967297)) = ONone /\ exact (EBin Pow (ELit 2) (ELit 4294967297)) = XOver.
 Proof. vm_compute. repeat split. Qed.
 
 (* ------------------------------------------------------------------ functions *)
-Lemma r53_small n : Z.abs n <= 2 ^ 53 -> r53 n = n.
-Proof.
-  intros H. unfold r53. destruct (Z.ltb_spec (Z.abs n) (2 ^ 53)) as [L|L]; [reflexivity|].
-  assert (E : Z.abs n = 2 ^ 53) by lia. rewrite E.
-  change (Z.log2 (2 ^ 53) - 52) with 1. change (2 ^ 1) with 2. change (2 ^ (1 - 1)) with 1.
-  change (2 ^ 53 / 2) with 4503599627370496. change (2 ^ 53 mod 2) with 0.
-  change (0 <? 1) with true. cbv iota.
-  change (2 ^ 53) with 9007199254740992 in E. lia.
-Qed.
-
-Lemma sat64_id x : in_i64 x = true -> sat64 x = x.
-Proof. rewrite in_i64_true. unfold sat64. intros H. destruct (Z.ltb_spec x i64_min); [lia|]. destruct (Z.ltb_spec i64_max x); lia. Qed.
-
 Definition int_args (args : list val) : Prop := Forall (fun v => match v with VInt n => in_i64 n = true | VNull => True | _ => False end) args.
 
 Lemma args_ok_of args : int_args args -> args_ok args = true.
@@ -363,19 +439,21 @@ Proof.
   destruct v; try contradiction; [reflexivity|]. rewrite Hv. reflexivity.
 Qed.
 
-(* ABS SIGN CEIL FLOOR ROUND TRUNCATE on one integer *)
+(* ABS SIGN CEIL FLOOR ROUND TRUNCATE on one integer; ROUND / TRUNCATE to d >= 0 decimals *)
 Theorem unary_fn_correct_l : forall n, in_i64 n = true ->
   (n <> i64_min -> eval_nfn FAbs [VInt n] = OVal (VInt (Z.abs n))) /\
   eval_nfn FSign [VInt n] = OVal (VInt (Z.sgn n)) /\
   eval_nfn FCeil [VInt n] = OVal (VInt n) /\ eval_nfn FFloor [VInt n] = OVal (VInt n) /\
-  (Z.abs n <= 2 ^ 53 -> eval_nfn FRound [VInt n] = OVal (VInt n) /\ eval_nfn FTrunc [VInt n] = OVal (VInt n) /\
-                         eval_nfn FRound [VInt n; VInt 0] = OVal (VInt n) /\ eval_nfn FTrunc [VInt n; VInt 0] = OVal (VInt n)).
+  eval_nfn FRound [VInt n] = OVal (VInt n) /\ eval_nfn FTrunc [VInt n] = OVal (VInt n) /\
+  (forall d, 0 <= d -> in_i64 d = true ->
+     eval_nfn FRound [VInt n; VInt d] = OVal (VInt n) /\ eval_nfn FTrunc [VInt n; VInt d] = OVal (VInt n)).
 Proof.
-  intros n Hn. unfold eval_nfn. cbn [args_ok forallb]. rewrite Hn. change (in_i64 0) with true. cbn [andb negb].
-  split; [|split; [|split; [|split]]]; try reflexivity.
+  intros n Hn. unfold eval_nfn. cbn [args_ok forallb]. rewrite Hn. cbn [andb negb get_num].
+  split; [|repeat split; try reflexivity].
   - intros Hmin. unfold chk. replace (in_i64 (Z.abs n)) with true; [reflexivity|].
     symmetry. apply in_i64_true. apply in_i64_true in Hn. unfold i64_min, i64_max in *. lia.
-  - intros H. cbn [get_num]. rewrite r53_small, sat64_id by assumption. repeat split; reflexivity.
+  - rewrite H0. cbn [andb negb]. replace (0 <=? d) with true by lia. reflexivity.
+  - rewrite H0. cbn [andb negb]. replace (0 <=? d) with true by lia. reflexivity.
 Qed.
 
 Ltac Zify.zify_post_hook ::= Z.to_euclidean_division_equations.
@@ -384,20 +462,19 @@ Lemma quot_in_range a b : b <> 0 -> i64_min <= a <= i64_max -> i64_min <= b <= i
   i64_min <= Z.quot a b <= i64_max.
 Proof. unfold i64_min, i64_max. intros. nia. Qed.
 
-(* MOD and DIV on two integers *)
+(* MOD and DIV on two integers: exact for every pair of i64 *)
 Theorem mod_div_correct_l : forall a b, in_i64 a = true -> in_i64 b = true ->
   (b = 0 -> eval_nfn FMod [VInt a; VInt b] = OVal VNull /\ eval_nfn FDivI [VInt a; VInt b] = OVal VNull) /\
-  (b <> 0 -> Z.abs a <= 2 ^ 53 -> Z.abs b <= 2 ^ 53 -> eval_nfn FMod [VInt a; VInt b] = OVal (VFltI (Z.rem a b))) /\
+  (b <> 0 -> eval_nfn FMod [VInt a; VInt b] = OVal (VInt (Z.rem a b))) /\
   (b <> 0 -> ~ (a = i64_min /\ b = -1) -> eval_nfn FDivI [VInt a; VInt b] = OVal (VInt (Z.quot a b))).
 Proof.
   intros a b Ha Hb. unfold eval_nfn. cbn [args_ok forallb]. rewrite Ha, Hb. cbn [andb negb get_num].
   split; [|split].
   - intros ->. split; reflexivity.
-  - intros Hb0 Ha53 Hb53. rewrite !r53_small by assumption.
-    destruct (Z.eqb_spec b 0); [contradiction|reflexivity].
+  - intros Hb0. destruct (Z.eqb_spec b 0); [contradiction|reflexivity].
   - intros Hb0 Hmin. destruct (Z.eqb_spec b 0); [contradiction|].
     unfold chk. replace (in_i64 (Z.quot a b)) with true; [reflexivity|].
-    symmetry. apply in_i64_true. apply in_i64_true in Ha. apply in_i64_true in Hb. unfold i64_min, i64_max in *.
+    symmetry. apply in_i64_true. apply in_i64_true in Ha. apply in_i64_true in Hb.
     apply quot_in_range; assumption.
 Qed.
 
@@ -435,11 +512,12 @@ Proof.
   rewrite !fold_ext_ints by assumption. split; reflexivity.
 Qed.
 
-(* the unchecked abs / division panic; integers beyond 2^53 come back changed from f64 *)
-Theorem fn_refuted_l :
-  eval_nfn FAbs [VInt i64_min] = OPanic /\ fn_exact FAbs [VInt i64_min] = XOver /\
-  eval_nfn FDivI [VInt i64_min; VInt (-1)] = OPanic /\ fn_exact FDivI [VInt i64_min; VInt (-1)] = XOver /\
-  eval_nfn FRound [VInt 9007199254740993] = OVal (VInt 9007199254740992) /\
-  eval_nfn FMod [VInt 9007199254740993; VInt 2] = OVal (VFltI 0) /\ fn_exact FMod [VInt 9007199254740993; VInt 2] = XInt 1 /\
-  nfn_class FRound [VInt 9007199254740993] = 3 /\ nfn_class FAbs [VInt i64_min] = 1.
+(* ABS(i64::MIN) and DIV(i64::MIN, -1): no panic any more, NULL where an error is required (class 1);
+   the witnesses of the repaired F-C20-3 (integers beyond 2^53) now come back exact *)
+Theorem fn_witnesses_l :
+  eval_nfn FAbs [VInt i64_min] = ONone /\ fn_exact FAbs [VInt i64_min] = XOver /\ nfn_class FAbs [VInt i64_min] = 1 /\
+  eval_nfn FDivI [VInt i64_min; VInt (-1)] = ONone /\ fn_exact FDivI [VInt i64_min; VInt (-1)] = XOver /\
+  eval_nfn FRound [VInt 9007199254740993] = OVal (VInt 9007199254740993) /\
+  eval_nfn FMod [VInt 9007199254740993; VInt 2] = OVal (VInt 1) /\ fn_exact FMod [VInt 9007199254740993; VInt 2] = XInt 1 /\
+  nfn_class FRound [VInt 9007199254740993] = 0.
 Proof. vm_compute. repeat split. Qed.
